@@ -154,13 +154,15 @@ def build(tier):
                     Target(f'map_chunk_task_{tag}', [tc], H), Target(f'map_index_task_{tag}', [ti], H)]
     targets += other_targets()
     import count_smt
+    import conc
+    bounded = conc.targets(tier, globals())
     vcs, fns = [], []
     for tag, _, _ in TSIZES:
         v, info = count_smt.vcs_for(tag)
         vcs += v
         fns.append(info)
     return {
-        'targets': targets, 'vcs': vcs, 'functions': fns,
+        'targets': targets, 'vcs': vcs, 'functions': fns, 'bounded': bounded,
         'decided': [
             'pool_t::map (chunked), tsize = tensor_size_t / size_t / int, every elements, chunksize >= 1, pool size >= 1: the (begin, end) ranges handed to the operator (sequential branch) or captured by value into the enqueued tasks (parallel branch) tile [0, elements): first at 0, consecutive, non-empty, end == min(begin + chunksize, elements), last ends at elements; the recurrence has one solution, so both branches generate the same sequence; only one branch generates; something is generated iff elements > 0',
             'number of generated ranges == (elements + chunksize - 1) / chunksize == the count passed to section.reserve (SMT over Int, with overflow obligations)',
@@ -171,9 +173,13 @@ def build(tier):
             'pool_t::pool_t(threads): #workers == #threads == clamp(threads, 1, max_size()) in [1, max_size()], worker k gets id k (so every id < size()); max_size() == max(1, hardware_concurrency) >= 1; worker_t constructor stores its id',
             '~pool_t: stop written with the mutex held, workers notified after that, mutex released before any join, every thread joined exactly once',
             'section_t::block(raise): every future visited once in order; valid futures waited with get() iff raise else wait(); exception leaves only if raise; ~section_t calls block(false) once',
-            'queue_t::enqueue_no_lock / enqueue: exactly one task is pushed, the returned future is that task\'s; enqueue pushes under the lock and notifies once afterwards'],
+            'queue_t::enqueue_no_lock / enqueue: exactly one task is pushed, the returned future is that task\'s; enqueue pushes under the lock and notifies once afterwards',
+            'BOUNDED (not proved; target conc_map_1sub_2_w0only, listed under bounded): the extracted pool_t(2) constructor (real worker_t constructor binds queue and id, any hardware_concurrency), map(elements <= 2, op, any raise) un-chunked size_t with the real enqueue_no_lock and task lambda, worker_t::operator() with its real wait predicate, section_t::block / ~section_t and ~pool_t run as CBMC threads: ALL interleavings of the submitting thread with worker 0 in which worker thread 1 is not scheduled before it is joined.  Asserted: every task body runs at most once; front / pop_front / emplace_back / clear / empty only with the mutex held by the calling thread and (front, pop_front) on a non-empty queue; the popped task holds its function and was moved out before pop_front; the task and the operator run outside the lock; worker id below the pool size and not in use by another running task of the call; when map returns every element was processed and every task finished, none outside [0, elements); no exception leaves map; wait called with the lock held; no self-deadlock on the mutex; join with the mutex released, once per thread; after ~pool_t every worker has left its loop without the lock and was joined, stop is set, the mutex free, the queue empty, nothing touches the queue or runs afterwards; every loop stays within its unwinding bound; reachability canary: the final state is reached'],
         'not_decided': [
-            'EVERY interleaving claim of the property: that each enqueued task is executed exactly once when several workers and submitters run concurrently, that a worker id is never used by two tasks of one call at the same time, that map returns only after all tasks finished under every schedule, absence of lost wake-ups, deadlock-free shutdown with busy workers / queued tasks, several threads submitting to one pool',
+            'EVERY interleaving claim of the property remains UNPROVED (the interleaving check below is a bounded stand-in, never counted): that each enqueued task is executed exactly once when several workers and submitters run concurrently, that a worker id is never used by two tasks of one call at the same time, that map returns only after all tasks finished under every schedule, absence of lost wake-ups, deadlock-free shutdown with busy workers / queued tasks, several threads submitting to one pool',
+            'interleavings in which BOTH worker threads run: the same harness with two worker threads (conc.py scen_a(2, False): 2 workers + submitter, <= 2 tasks) is beyond CBMC 6.11\'s partial-order encoding here: ~370k variables / 1.8M clauses, the first satisfying schedule takes 30-80 s and the final UNSAT call did not finish in 280 s with minisat or cadical, also when restricted to the single worker-id assertion (--property), with hardware_concurrency fixed, without ~pool_t, or with the workers first scheduled at map\'s notify_all; critical sections as CBMC atomic sections (Lipton reduction) are rejected by symex ("atomic sections differ across branches": the worker leaves its critical section on two paths).  Consequently the worker-id exclusivity clause (two workers given the same tnum) is exercised by the sequential constructor proof only; 2 submitters and shutdown under load (queued / running tasks at ~pool_t, broken promises: conc.h NV_BROKEN_PROMISES) were not run',
+            'lost wake-ups / deadlock freedom: the bounded model lets wait(lock, pred) return whenever pred holds (notify_one / notify_all are no-ops), so a missing or misplaced notify is invisible; only "the final state is reachable under some schedule" is checked (nv_canary).  The stricter notification-counter model is sketched in conc.h (NV_STRICT_NOTIFY) but not run',
+            'data races on plain members read outside the models (m_stop is read directly by the extracted code): no race detector is run (goto-instrument --race-check not tried); sequential consistency is assumed by the bounded check',
             'data races on the operator\'s own state; exceptions thrown by the operator in the sequential branch',
             'std::thread(std::cref(worker)) starts worker k on thread k (lambda inside std::transform: not extractable, dependent types)',
             'that clearing the queue on stop breaks the promises of the dropped tasks (std::packaged_task destructor semantics)',
@@ -189,7 +195,8 @@ def build(tier):
             'std::packaged_task(f) holds f, get_future() returns its future, moving it leaves it empty; shared_future::get() waits then rethrows, wait() waits',
             'queue_t::enqueue_no_lock as used inside map is modelled by the values the pushed lambda captures (checked by-copy); its own body is verified in target enqueue_no_lock',
             'worker_t::m_queue (a reference member) is modelled as the worker\'s own view of the queue',
-            'the user operator is opaque and, in the contracts, does not throw'],
+            'the user operator is opaque and, in the contracts, does not throw',
+            'BOUNDED interleaving stand-in only (conc.h): std::mutex = lock word taken atomically under assume(free); wait(lock, pred) = returns at once if pred holds, else releases and atomically {assume(free && pred); re-acquire} (blocking; notify abstracted away); packaged_task = the captured values + a ready bit set after the extracted lambda body returned, shared_future::get / wait = assume(ready); std::deque = array + head/size with bounds asserts; std::thread(std::cref(worker k)) runs worker k, join = assume(thread finished); each queue-operation model is one atomic step (it first asserts that the calling thread holds the mutex); sequential consistency; CBMC --pointer-check is off in these targets (its dead-object bookkeeping is rejected by the concurrency encoding), array accesses are covered by --bounds-check and the models\' own bound assertions'],
         'trusted': [],
     }
 
